@@ -205,9 +205,10 @@ pub fn run(o: &Opts) -> Report {
             }
             // rates (12d, no currency): up to ten decimals behind a short integer part
             if f.0 == "36" {
-                for dec in 6..=10usize {
-                    for int in ["0", "1", "7", "12"] {
-                        if int.len() + 1 + dec > 12 { continue; }
+                for dec in 6..=12usize {
+                    for int in ["0", "1", "7", "12", "99999"] {
+                        // up to one character beyond 12d (13 characters: must be refused, the separator counts)
+                        if int.len() + 1 + dec > 13 { continue; }
                         let frac: String = (0..dec).map(|k| if k + 1 == dec { char::from(b'1' + rng.below(9) as u8) } else { char::from(b'0' + rng.below(10) as u8) }).collect();
                         check(&mut rep, f, ccy, &format!("{int},{frac}"));
                     }
